@@ -3,7 +3,8 @@ C08 driver: parses the case lines that the harness executes against the real dri
 (`model` mode) or the specification oracle on an implementation trace (`judge` mode).
 
 Case lines (shared with harness/c08/c08.c):
-  script o<k> create|init|mod <op>;<op>;...   script of the next not yet scripted invocation of that hook of object k
+  script o<k> create|init|mod <op>;<op>;...   the n-th such line is the script of the n-th invocation of that hook of
+                                              object k; all script lines come before the first command
   t <op>                                      master->do_op(op)   (top level)
   snap | probe | gc
 op syntax (comma separated):  ld,<file> | cl,<file> | mv,o<a>,o<d> | de,o<a> | ec,o<a> | dc,o<a> | ln,o<a>,<name> |
@@ -66,7 +67,7 @@ def parseLine (p : Parsed) (line : String) : Parsed :=
     match parseOid o, parseHook h with
     | some k, some hk =>
       let parsed := (ops.splitOn ";").map parseOp
-      if parsed.all Option.isSome then { p with scripts := p.scripts ++ [((k, hk), parsed.filterMap id)] }
+      if parsed.all Option.isSome && p.cmds.isEmpty then { p with scripts := p.scripts ++ [((k, hk), parsed.filterMap id)] }
       else { p with bad := line :: p.bad }
     | _, _ => { p with bad := line :: p.bad }
   | ["t", op] =>
